@@ -250,6 +250,7 @@ fn class_of(e: &discret::Error) -> &'static str {
                     } else if m.contains("not authorised") || m.contains("not  authorised") {
                         "notauthorised"
                     } else if m.contains("duplicate")
+                        || m.contains("not placed")
                         || m.contains("different size")
                         || m.contains("edge src")
                         || m.contains("edge source")
